@@ -2,7 +2,8 @@
 import numpy as np
 from harness import wavecheck as wk, waveoracle as wo, wavesim_corr as wc
 
-THEOREMS = ['C13_wsa_counts', 'C13_overflow_mark', 'C13_no_overflow_is_exact', 'C13_capture_summary', 'C13_value_before_prefix']
+THEOREMS = ['C13_wsa_counts', 'C13_overflow_mark', 'C13_no_overflow_is_exact', 'C13_capture_summary', 'C13_value_before_prefix',
+            'C13_wacc_running', 'C13_wacc_final', 'C13_wacc_final_ssa', 'C13_acc_once_check_sound', 'C13_ovf_reach', 'C13_ovf_reach_clean', 'C13_circuit_capture', 'C13_flat_capture']
 
 
 def oracle(k, w):
@@ -29,6 +30,12 @@ def oracle(k, w):
                 b, tb = wo.waveform(big, big.ppo_offset + p, lane)
                 if a != b or ta != tb:
                     return f'position {p} lane {lane}: overflow indicator clear but waveform {a[:8]} differs from the unlimited-capacity waveform {b[:8]}'
+    # every op carries the accumulation control of its OUTPUT line (the per-op table that Model/WaveAcc.v wacc consumes)
+    if k.a_ctrl is not None:
+        pad = np.concatenate([np.asarray(k.a_ctrl), np.array([[-1, 0, 0]] * 3, dtype=np.int32)])
+        for i, o in enumerate(np.asarray(w.ops)):
+            if not np.array_equal(o[6:9], pad[o[1]]):
+                return f'op {i} (output index {int(o[1])}) carries accumulation control {o[6:9].tolist()}, a_ctrl of its output line is {pad[o[1]].tolist()}'
     # weighted switching activity = weighted count of rising/falling transitions of the produced waveforms
     if k.a_ctrl is not None and not k.reuse:
         ops = np.asarray(w.ops)
@@ -49,7 +56,7 @@ def oracle(k, w):
 def run(ck):
     if THEOREMS:
         ck.prove('C13', THEOREMS)
-    fails, mism = wk.campaign(ck, ck.scale(40, 1200), oracle, gen_kw={'with_actrl': True, 'allow_dangling': False}, coq_lanes=1, coq_every=2, stress_every=3)
+    fails, mism = wk.campaign(ck, ck.scale(40, 1200), oracle, gen_kw={'with_actrl': True, 'allow_dangling': False}, coq_lanes=1, coq_every=2, stress_every=3, line_level=True)
     ck.rule('random circuits x delays x capacities (incl. overflowing) x capture times (incl. ties with entries) x accumulation-control '
             'tables (shared accumulators, weights 0..3); oracle: recount from the stored waveforms (CPU and GPU capture), rerun with capacity 64')
     wk.report(ck, fails, mism, 'wavesim:capture', 'wave_sim.WaveSim capture/abuf')
